@@ -103,6 +103,9 @@ def main():
             print(prop, meta["checks"][prop], flush=True)
     finally:
         shutil.rmtree(scratch, ignore_errors=True)
+    for k in ("baseline_checks", "seed_sweep"):  # written by tools/seed_base_eval.py / seed_sweep.py: kept across re-evaluations
+        if k in old_meta and k not in meta:
+            meta[k] = old_meta[k]
     json.dump(meta, open(os.path.join(dst, "meta.json"), "w"), indent=1)
     print(json.dumps({k: v for k, v in meta.items() if k not in ("demo_patched_tail",)}, indent=1))
 
